@@ -11,7 +11,16 @@ def build(profile='dev'):
     with _lock:
         if profile in _built:
             return _built[profile]
-        cmd = ['cargo', 'build', '--offline', '--target-dir', TARGET, '--manifest-path', os.path.join(VERIF, 'replay', 'Cargo.toml')]
+        manifest = os.path.join(VERIF, 'replay', 'Cargo.toml')
+        if REPO != '/repo':
+            # scratch trial: same driver, path dependency redirected to the scratch tree
+            d = os.path.join(BUILD, 'replay-src'); os.makedirs(os.path.join(d, 'src'), exist_ok=True)
+            open(os.path.join(d, 'Cargo.toml'), 'w').write(open(manifest).read().replace('/repo/falcon-rust', CRATE))
+            open(os.path.join(d, 'src', 'main.rs'), 'w').write(open(os.path.join(VERIF, 'replay', 'src', 'main.rs')).read())
+            import shutil
+            shutil.copy(os.path.join(REPO, 'Cargo.lock'), os.path.join(d, 'Cargo.lock'))
+            manifest = os.path.join(d, 'Cargo.toml')
+        cmd = ['cargo', 'build', '--offline', '--target-dir', TARGET, '--manifest-path', manifest]
         if profile == 'release':
             cmd.append('--release')
         # keep the lock file in step with the repository's
